@@ -60,8 +60,14 @@ Section Explore.
     match o with (at_, sends, yld) =>
       (* the caller sleeps until at_: if that is in the future the task first runs to quiescence *)
       (* events exactly at at_ may be seen by the task before or after the caller's send *)
+      (* (only when something is due exactly at at_ are there two cases; otherwise the two explorations coincide and
+         doubling the worlds at every call would make long histories exponential) *)
       let ws1 := flat_map (fun w => if N.ltb (now w) at_
-                                    then flat_map (fun w' => (advance_to false 60 at_ w' ++ advance_to true 60 at_ w')%list) (settle 40 [w])
+                                    then flat_map (fun w' =>
+                                           flat_map (fun w1 => match enabled V (normalize w1) with
+                                                               | [] => [w1]
+                                                               | _ => w1 :: settle 40 [w1]
+                                                               end) (advance_to false 60 at_ w')) (settle 40 [w])
                                     else [w]) ws in
       let ws2 := map (fun w => fold_left (fun w s => match s with (p, c, f) => send w p c f end) sends (normalize w)) ws1 in
       if yld then settle 40 ws2 else ws2
